@@ -374,3 +374,20 @@ func distinctKeys(obl []Obligation) int {
 	}
 	return len(m)
 }
+
+// Unlisted returns the obligations that are neither discharged nor listed as
+// known findings for this property (what a mutant run has to look at).
+func (c *Ctx) Unlisted(verifDir string) []Obligation {
+	ff, _ := LoadFindings(filepath.Join(verifDir, "known_findings.json"))
+	var out []Obligation
+	for _, o := range c.obl {
+		if o.Status == Discharged {
+			continue
+		}
+		if ff != nil && o.Status == Violated && ff.known(c.Prop, o.Rule, o.Key) != nil {
+			continue
+		}
+		out = append(out, o)
+	}
+	return out
+}
